@@ -168,6 +168,22 @@ def suite_eval(ctx, case):
             ctx.corr('eval', case, mc[1], 'true' if impl_lin else 'false', what='DiscreteKoyama: linearised bending energy used iff (lp - lp_min)/lp_min < 0.001')
             ctx.pred('eval', case, impl_lin == (rel < 0.001), 'DiscreteKoyama(sigma=%r, l=%r, lp=%r): (lp-lp_min)/lp_min = %.4g but the %s bending energy is used' %
                      (p['sigma'], p['l'], p['lp'], rel, 'linearised' if impl_lin else 'solved'), key='C11:koyama-pair-sum')
+        # the bond-angle moments the kernels are built from, against their DEFINITION: the distribution exp(-eps x) of x = cos(theta) on
+        # [-1, cos0] with eps fixed by <x> = l/lp - 1, moments by numerical quadrature (independent of the closed forms and of the
+        # linearisation near lp_min, whose own error is <= 0.31 ((lp - lp_min)/lp_min)^2 <= 3.1e-7)
+        try:
+            from scipy.integrate import quad
+            from scipy.optimize import brentq
+            c0_ = 1.0 - p['sigma'] ** 2 / (2.0 * p['l'] ** 2); c1_ = p['l'] / p['lp'] - 1.0
+            def mom_(e_, q_):
+                return quad(lambda x: x ** q_ * math.exp(-e_ * (x + 1.0)), -1.0, c0_, epsabs=1e-13, epsrel=1e-13)[0] / quad(lambda x: math.exp(-e_ * (x + 1.0)), -1.0, c0_, epsabs=1e-13, epsrel=1e-13)[0]
+            e_ex = brentq(lambda e_: mom_(e_, 1) - c1_, -300.0, 300.0, xtol=1e-13, rtol=1e-13)
+            c2_ex = mom_(e_ex, 2)
+            okm = abs(o.cos1 - c1_) <= 1e-12 and abs(o.cos2 - c2_ex) <= 1e-6 and abs(o.epsilon - e_ex) <= 1e-6 * max(1.0, abs(e_ex))
+            ctx.pred('eval', case, okm, 'DiscreteKoyama(sigma=%r, l=%r, lp=%r): bond-angle moments <cos> = %.9g, <cos^2> = %.9g, eps = %.9g differ from their definition (%.9g, %.9g, %.9g)' %
+                     (p['sigma'], p['l'], p['lp'], o.cos1, o.cos2, o.epsilon, c1_, c2_ex, e_ex), key='C11:koyama-pair-sum')
+        except (ValueError, OverflowError, ZeroDivisionError):
+            ctx.dist['koyama:moment-reference-not-bracketed'] += 1
         val = np.array(o.calculate(k.copy()), dtype=float)
         B = []; A = []; w = []
         for n in range(1, N):
@@ -206,11 +222,32 @@ def suite_eval(ctx, case):
             val = np.array(make().calculate(k.copy()), dtype=float)
         kl = k.astype(LD); El = np.sin(kl) / kl
         judge(ctx, case, name, N, val, None, condE=El)
+        # the value against the model's defining expression: FJC + (2/N) sum_tau (N - tau) (B_tau (E^tau - J_tau(k)) - E^tau), the integrals J over the
+        # shipped range [0.1, 99.9] by a 4x finer Simpson rule (the shipped rule itself is within 2e-8 N^2 of it on the unchanged tree)
+        kref = np.array([0.5, 1.0, 2.0, 3.3]); vref = np.array(make().calculate(kref.copy()), dtype=float)
+        want = nfjc_reference(N, kref)
+        errn = float(np.max(np.abs(vref - want) / np.abs(want)))
+        ctx.pred('eval', case, errn <= 1e-7 * N * N + 1e-6, '%s(N=%d): omega differs from FJC + excluded-volume correction (integrals by a finer quadrature) by %.3g relative' % (name, N, errn), key='C11:nfjc-sum')
         good = (1 - np.array(El, dtype=float)) ** 2 > 1e-9
         lo = val[(k * N < 2e-2) & good]; hi = val[k > 500 * N]
         ctx.pred('eval', case, bool(np.all(np.abs(lo - N) < 2e-3 * N)) and bool(np.all(np.abs(hi - 1) < 0.02)),
                  'NFJC(N=%d): limits: omega(k->0) = %s, omega(k->inf) = %s' % (N, lo[:1], hi[-1:]), key='C11:limits')
         elementwise(ctx, case, name, make)
+
+def nfjc_reference(N, k, refine=4):
+    import scipy.integrate
+    k = np.asarray(k, dtype=float); dx = 0.1 / refine
+    x = 0.1 + np.arange(0, 998 * refine + 1) * dx
+    K, X = np.meshgrid(k, x, indexing='ij')
+    ZB = (1 / (np.pi * K)) * X * (np.sinc((K - X) / np.pi) - np.sin(K + X) / (K + X))
+    sx = np.sin(x) / x; sX = np.sin(X) / X; sk = np.sin(k) / k; J0B = sx - np.cos(x)
+    out = np.zeros_like(k)
+    for tau in range(2, N):
+        J0 = 2 / np.pi * scipy.integrate.simpson(sx ** tau * J0B, x=x)
+        J = scipy.integrate.simpson(ZB * sX ** tau, x=x, axis=1)
+        out += (N - tau) * ((sk ** tau - J) / (1 - J0) - sk ** tau)
+    out *= 2.0 / N
+    return out + (1 - sk ** 2 - 2.0 / N * sk + 2.0 / N * sk ** (N + 1)) / (1 - sk) ** 2
 
 SUITES = {'eval': suite_eval}
 
